@@ -199,6 +199,13 @@ def int_to_chars(I, v, bits=None, signed=True):
     if not is_sym(v):
         return [ord(c) for c in str(v)]
     bits = v.size()
+    # few feasible values: fork on them (cheap concrete formatting) instead of symbolic division by powers of ten
+    vals = I.ctx.values_upto(v, 24)
+    if vals is not None:
+        for x in vals[:-1]:
+            if I.branch(v == z3.BitVecVal(x, bits)):
+                return [ord(c) for c in str(wrap(x, bits, signed))]
+        return [ord(c) for c in str(wrap(vals[-1], bits, signed))]
     out = []
     if signed and I.branch(v < 0):
         out.append(45)
@@ -546,6 +553,19 @@ def install(prog):
         if is_sym(ch): return z3.If(z3.And(z3.UGE(ch, 65), z3.ULE(ch, 90)), ch + 32, ch)
         return ch + 32 if 65 <= ch <= 90 else ch
 
+    def int_from(I, a, c):
+        import re as _re
+        m = _re.match(r'^<(\w+) as From<(\w+)>>::from$', c.strip())
+        v = I.deref(a[0])
+        if isinstance(v, bool): return int(v)
+        if not m or not is_sym(v): return v
+        dst = INT_TYPES.get(m.group(1)); src = INT_TYPES.get(m.group(2))
+        if dst is None or src is None or z3.is_bool(v): return v
+        if dst[0] > v.size():
+            return z3.SignExt(dst[0] - v.size(), v) if src[1] else z3.ZeroExt(dst[0] - v.size(), v)
+        return v
+    for _k in ('i64', 'i32', 'u64', 'usize', 'u32', 'i128', 'u128', 'isize', 'u16', 'i16', 'f64'):
+        prog.models['<%s as From>::from' % _k] = int_from
     # ---------------- fmt ---------------------------------------------------------------------------
     @M('Argument::new_display', 'Argument::new_debug', 'Argument::new_lower_hex', 'Argument::new_octal')
     def _(I, a, c):
